@@ -52,3 +52,48 @@ func DialTLSWithDialer(d *net.Dialer, network, addr string, cfg *tls.Config) (ne
 	}
 	return s.dialer(network, addr)
 }
+
+// AllocLimit is the largest single []byte allocation the simulated machine grants.
+// Redis strings are at most 512 MiB; anything above comes from a corrupted length field.
+const AllocLimit = 600 << 20
+
+// AllocFailure is the panic value raised when the simulated machine refuses an allocation
+// (the real process would be killed or would thrash); it aborts the simulated process.
+type AllocFailure struct{ N int }
+
+func (a AllocFailure) Error() string {
+	return "simulated out of memory: allocation of " + itoa(a.N) + " bytes refused"
+}
+
+func itoa(n int) string {
+	if n == 0 {
+		return "0"
+	}
+	neg := n < 0
+	if neg {
+		n = -n
+	}
+	var b [24]byte
+	i := len(b)
+	for n > 0 {
+		i--
+		b[i] = byte('0' + n%10)
+		n /= 10
+	}
+	if neg {
+		i--
+		b[i] = '-'
+	}
+	return string(b[i:])
+}
+
+// MakeBytes replaces make([]byte, n) with a run-time n in instrumented code.
+func MakeBytes(n int) []byte {
+	if n > AllocLimit {
+		if s := current(); s != nil {
+			s.Fault("alloc_refused")
+		}
+		panic(AllocFailure{n})
+	}
+	return make([]byte, n)
+}
